@@ -118,8 +118,9 @@ MathAlgOf(e) ==
     [] e.fn = "ln"   -> Ln(ZJ(e.x), e.D)
     [] e.fn = "exp"  -> Exp(ZJ(e.x), e.D)
     [] e.fn = "powi" -> Powi(ZJ(e.x), e.n, e.D)
+    [] e.fn = "pow"  -> Pow(ZJ(e.x), ZJ(e.y), e.D)
 AcceptFidelity(e) ==
-  \/ e.k # "math" \/ e.S # e.D \/ e.fn \notin {"sqrt", "log2", "ln", "exp", "powi"}
+  \/ e.k # "math" \/ e.S # e.D \/ e.fn \notin {"sqrt", "log2", "ln", "exp", "pow", "powi"}
   \/ (e.fn = "powi" /\ (e.n > 300 \/ e.n < -300))
   \/ LET a == MathAlgOf(e) IN
      \/ a.k = "undef"
